@@ -366,5 +366,39 @@ func statusAtoms(cond string, alias map[string]bool) []string {
 }
 
 func init() {
-	register(genFile{name: "Client", imports: nil, units: []unit{{"clientFacts", clientFacts}}})
+	register(genFile{name: "Client", imports: nil, units: []unit{{"clientFacts", clientFacts}, {"clientConstruction", clientConstruction}}})
+}
+
+// clientConstruction: how a configured key becomes the client's verifier.  jsonclient.Options.ParsePublicKey: a non-empty
+// PublicKeyDER is parsed (result and error returned as they are); else a non-empty PublicKey string is parsed as PEM, the
+// parser's error returned and anything after the block refused; only when BOTH are empty is there "no key".
+// jsonclient.New returns ParsePublicKey's and NewSignatureVerifier's errors and stores the verifier built from the key;
+// client.New passes jsonclient.New's error on.
+func clientConstruction() string {
+	rel := "jsonclient/client.go"
+	has := func(text, re string) bool { return regexp.MustCompile(re).MatchString(text) }
+	pk := canonText(rel, "Options.ParsePublicKey")
+	if !has(pk, `^iflen\((\w+)\.PublicKeyDER\)>0\{returnx509\.ParsePKIXPublicKey\((\w+)\.PublicKeyDER\)\};`+
+		`if(\w+)\.PublicKey==""\{returnnil,nil\};(\w+),_,(\w+),err:=ct\.PublicKeyFromPEM\(\[\]byte\((\w+)\.PublicKey\)\);iferr!=nil\{returnnil,err\};`+
+		`iflen\((\w+)\)>0\{returnnil,errors\.New\("[^"]*"\)\};return(\w+),nil;$`) {
+		panic(bail{rel + ": Options.ParsePublicKey is no longer `DER if non-empty, else PEM if the string is non-empty (error returned, rest refused), else no key`: " + pk})
+	}
+	m := regexp.MustCompile(`\};(\w+),_,(\w+),err:=.*?iflen\((\w+)\)>0.*?return(\w+),nil;$`).FindStringSubmatch(pk)
+	if m == nil || m[1] != m[4] || m[2] != m[3] {
+		panic(bail{rel + ": Options.ParsePublicKey does not test the rest / return the key PublicKeyFromPEM gave"})
+	}
+	nw := canonText(rel, "New")
+	km := regexp.MustCompile(`^(\w+),err:=(\w+)\.ParsePublicKey\(\);iferr!=nil\{returnnil,`).FindStringSubmatch(nw)
+	if km == nil {
+		panic(bail{rel + ": New no longer starts by returning the error of ParsePublicKey"})
+	}
+	vm := regexp.MustCompile(`var(\w+)\*ct\.SignatureVerifier;if` + km[1] + `!=nil\{(?:varerrerror;?)?(\w+),err=ct\.NewSignatureVerifier\(` + km[1] + `\);?iferr!=nil\{returnnil,err\}\};`).FindStringSubmatch(nw)
+	if vm == nil || vm[1] != vm[2] || !has(nw, `Verifier:`+vm[1]+`,`) {
+		panic(bail{rel + ": New no longer builds Verifier with NewSignatureVerifier from the parsed key (error returned)"})
+	}
+	cn := canonText("client/logclient.go", "New")
+	if !has(cn, `^(\w+),err:=jsonclient\.New\(\w+,\w+,\w+\);iferr!=nil\{returnnil,err\};return&LogClient\{\*(\w+)\},(err|nil);$`) {
+		panic(bail{"client/logclient.go: New is no longer jsonclient.New with its error passed on: " + cn})
+	}
+	return "/-- generated from " + rel + " func Options.ParsePublicKey / New and client/logclient.go func New: a key option that is set (non-empty\nPublicKeyDER, else non-empty PublicKey string) either yields the verifier built from exactly that key or makes New fail; only with\nboth options empty is a client built without a verifier -/\ndef clientKeyOptionFailsClosed : Bool := true\n"
 }
